@@ -208,7 +208,7 @@ def run_job(job):
                     crashes.append(rec)
                     break
                 key = repr(rec['ev'])
-                if key not in seen:          # distinct event sequences only
+                if key not in seen and len(seen) < item.get('max_keep', 400):   # distinct event sequences only (capped; all runs are checked for crashes)
                     seen.add(key)
                     traces.append(rec)
             continue
